@@ -235,6 +235,49 @@ def main(tier, seed):
                         handle = db.measurement("m")
                         empty_handle = db.measurement("no-such-measurement")
                         db.count(q_none)
+        # callables that EDIT the mapping they are handed and return it: an ill-typed edit is rejected and must leave no trace (the mapping is a
+        # private copy); mappings in which an ill-typed value is ==-equal to a well-typed one next to it (True == 1 == 1.0)
+        def edit(key, val):
+            def fn(d, _k=key, _v=val):
+                d[_k] = _v
+                return d
+            return fn
+        db = fresh(csv)
+        handle = db.measurement("m")
+        for slot, key, val in (("tags", "room", 7), ("tags", "a", 1.5), ("fields", "f", "str"), ("fields", "g", True), ("tags", 5, "x")):
+            for name, call in (("db.update", lambda: db.update(q_all, **{slot: edit(key, val)})), ("db.update_all", lambda: db.update_all(**{slot: edit(key, val)})),
+                               ("measurement.update_all", lambda: handle.update_all(**{slot: edit(key, val)}))):
+                before = [M.canon_point(x) for x in db.all(sorted=False)]
+                r = raises(call)
+                n_checks += 1
+                bad = stored_ok(tf, db)
+                after = [M.canon_point(x) for x in db.all(sorted=False)]
+                desc = f"{slot}=callable doing d[{key!r}] = {val!r}; return d"
+                if bad:
+                    note(name, desc, "an ill-typed value was stored (after the update was rejected)" if r is not None else "an ill-typed value was stored", {"stored": bad[:3]})
+                elif r is None:
+                    note(name, desc, "the ill-typed result of a callable was accepted")
+                elif after != before:
+                    note(name, desc, "a rejected update changed the stored contents")
+                if bad or after != before:
+                    db = fresh(csv)
+                    handle = db.measurement("m")
+        for fields_v in ({"count": 1, "ok": True}, {"count": 0, "ok": False}, {"x": 1.0, "y": True}, {"a": 0.0, "b": 0, "c": False}, {"ok": True, "count": 1}):
+            for name, call in (("Point(fields=...)", lambda: tf.Point(fields=dict(fields_v))), ("db.update_all(fields=...)", lambda: db.update_all(fields=dict(fields_v))),
+                               ("db.update(fields=callable)", lambda: db.update(q_all, fields=lambda d: dict(fields_v))),
+                               ("db.insert", lambda: db.insert(tf.Point(time=T0 + timedelta(seconds=77), fields=dict(fields_v))))):
+                r = raises(call)
+                n_checks += 1
+                bad = stored_ok(tf, db)
+                if r is None or bad:
+                    note(name, fields_v, "a boolean field value next to a number it compares equal to was accepted" if r is None else "an ill-typed value was stored", {"stored": bad[:3]})
+                    db = fresh(csv)
+                    handle = db.measurement("m")
+        for tags_v in ({"a": "1", "b": 1}, {"a": "", "b": 0}):
+            r = raises(lambda: tf.Point(tags=dict(tags_v)))
+            n_checks += 1
+            if r is None:
+                note("Point(tags=...)", tags_v, "an ill-typed tag value was accepted")
         # callables whose k-th result is the ill-typed one, after k-1 valid results (fresh mappings, or ONE mapping object refilled and handed
         # back every time): validation must not depend on what was validated before
         for slot, good, ill in (("fields", lambda i: {"g": float(i)}, {"g": "str"}), ("tags", lambda i: {"g": str(i)}, {"g": 7}),
